@@ -11,6 +11,7 @@ CONSTANTS
   MaxXorbChunks = %(maxc)d
   MaxXorbBytes = %(maxb)d
   MaxChunk = %(maxchunk)d
+  NRanges = %(nranges)d
 INVARIANT ObsInv
 POSTCONDITION TraceAccepted
 CHECK_DEADLOCK FALSE
@@ -49,7 +50,7 @@ CONFIGS = {
 def trace_cfg(path, props, relax=("empty-file-salt",)):
     setup = json.loads(open(path).readline())
     lim = setup["limits"]
-    return TRACE_CFG % dict(P=vlib.cfg_set(props), relax=vlib.cfg_set(relax), maxc=lim["max_xorb_chunks"], maxb=lim["max_xorb_bytes"], maxchunk=lim["max_chunk"])
+    return TRACE_CFG % dict(P=vlib.cfg_set(props), relax=vlib.cfg_set(relax), maxc=lim["max_xorb_chunks"], maxb=lim["max_xorb_bytes"], maxchunk=lim["max_chunk"], nranges=lim.get("nranges", 128))
 
 
 def validate(ctx, path, label, props, relax=("empty-file-salt",)):
@@ -76,6 +77,8 @@ def run_all(ctx, props, faults=1):
             ("A", "random", 10 * k, {"remote": 1}), ("D", "natural", 6 * k, {"remote": 1}),
             # ... with several users: global dedup answered with HMAC-keyed shards, filed by the client in its own cache
             ("U", "random", 12 * k, {"gd": 1, "users": 3, "remote": 1}),
+            # ... with dry-run sessions (FileUploadSession::dry_run) over the data of the session that follows them
+            ("A", "random", 8 * k, {"remote": 1, "dry": 1}), ("D", "natural", 4 * k, {"remote": 1, "dry": 1}),
             # the top-level API: data_client::upload_async over files on disk (configuration derived from the endpoint,
             # parallel ingestion through parutils), observed at the loopback server and through the returned pointers
             ("C", "random", 8 * k, {"api": 1}), ("E", "natural", 5 * k, {"api": 1}),
@@ -129,13 +132,13 @@ def run_all(ctx, props, faults=1):
             counts[kk] = counts.get(kk, 0) + v
         if i == 0:
             ctx.sample({"config": CONFIGS[cfg], "recorded_trace_prefix": r["sample"][:8]})
-        validate(ctx, t, "%s-%s%s%s" % (cfg, mode, "-gd" if "gd" in extra else "", "-remote" if "remote" in extra else "-api" if "api" in extra else "-periodic" if "periodic" in extra else ""), props)
+        validate(ctx, t, "%s-%s%s%s" % (cfg, mode, "-gd" if "gd" in extra else "", "-remote-dry" if "dry" in extra else "-remote" if "remote" in extra else "-api" if "api" in extra else "-periodic" if "periodic" in extra else ""), props)
     ctx.notes["event_counts"] = counts
     ctx.notes["configurations"] = {k2: CONFIGS[k2] for k2 in sorted({p[0] for p in plan})}
     # vacuity: the interesting branches must have been exercised
     need = ["DdDecision:dedup", "DdDecision:dedup:local", "DdDecision:prevented", "DdDecision:new", "DdCut",
             "UpCompletion:merge", "UpCompletion:cut", "UpCompletion:swap", "UpPutEnd:ok", "UpPutEnd:exists", "UpDownload",
-            "UpGlobalQuery:hit", "UpGlobalQuery:none"]
+            "UpGlobalQuery:hit", "UpGlobalQuery:none", "UpDryFinalize"]
     missing = [n for n in need if counts.get(n, 0) == 0]
     if missing:
         raise vlib.ToolError("vacuity: branches never exercised by the drivers: %s" % missing)
